@@ -76,6 +76,7 @@ class World:
         self.texts: dict[str, str] = {}
         self.prints: list[tuple[str, int, str]] = []
         self.open_logs: list[list[str]] = []
+        self.shared_args: dict[str, tuple[list, list]] = {}
         self._home = _HOME
         self.build()
 
@@ -147,12 +148,30 @@ class World:
             raise ValueError(st)
         return s if arg.get("ty", "p") == "s" else Path(s)
 
-    def spell_list(self, args, cwd_abs: str):
+    def spell_list(self, args, cwd_abs: str, share: str | None = None):
+        """share: a key under which the *same list object* (of unique Path objects) is handed to several calls of one run -
+        callers do reuse their argument lists; the calls must neither mutate them nor depend on earlier calls."""
         if args is None:
             return None
         if isinstance(args, dict):
             return self.spell(args, cwd_abs)
+        if share is not None:
+            if share not in self.shared_args:
+                lst = []
+                for a in args:
+                    p = Path(self.abs(a["p"] if isinstance(a, dict) else a))
+                    if p not in lst:
+                        lst.append(p)
+                self.shared_args[share] = (lst, list(lst))
+            return self.shared_args[share][0]
         return [self.spell(a, cwd_abs) for a in args]
+
+    def mutated_shared_args(self) -> list[str]:
+        out = []
+        for k, (lst, snapshot) in self.shared_args.items():
+            if lst != snapshot or len(lst) != len(snapshot) or any(type(x) is not type(y) for x, y in zip(lst, snapshot)):
+                out.append("%s: %s -> %s" % (k, [self.rel(x) for x in snapshot], [self.rel(x) if isinstance(x, (str, Path)) else repr(x) for x in lst]))
+        return out
 
     # ---- operations ------------------------------------------------------------------------------------------------
     def _handler(self, path, line, text) -> None:
@@ -174,13 +193,13 @@ class World:
             kw = {}
             if "allow_coll" in op:
                 kw["allow_root_namespace_name_collision"] = bool(op["allow_coll"])
-            args = (self.spell(op["root"], cwd_abs), self.spell_list(op.get("lookups"), cwd_abs), handler,
+            args = (self.spell(op["root"], cwd_abs), self.spell_list(op.get("lookups"), cwd_abs, op.get("share_lookups")), handler,
                     bool(op.get("allow_unreg", False)))
             fn = pydsdl.read_namespace
         elif op["op"] == "rf":
             kw = {}
-            args = (self.spell_list(op["files"], cwd_abs), self.spell_list(op.get("roots"), cwd_abs),
-                    self.spell_list(op.get("lookups"), cwd_abs), handler, bool(op.get("allow_unreg", False)))
+            args = (self.spell_list(op["files"], cwd_abs), self.spell_list(op.get("roots"), cwd_abs, op.get("share_roots")),
+                    self.spell_list(op.get("lookups"), cwd_abs, op.get("share_lookups")), handler, bool(op.get("allow_unreg", False)))
             fn = pydsdl.read_files
         else:
             raise ValueError(op["op"])
